@@ -15,4 +15,27 @@ def St.ofNat? : Nat → Option St
   | 0 => some .none | 1 => some .starting | 2 => some .ok | 3 => some .recoverable | 4 => some .permanent
   | 5 => some .fatal | 6 => some .stopping | 7 => some .stopped | _ => Option.none
 
+/-! ### the status-report skeleton of the service's glue loops (regenerated: `Gen/StatusGlue.lean`) -/
+
+/-- a status statement of a loop body: `ReportStatus(instanceID, <event of status s>)` / `ReportOKIfStarting(instanceID)` -/
+inductive GAct | rep (s : St) | okIf
+deriving DecidableEq, Repr
+
+/-- how the error branch of the component call leaves the iteration -/
+inductive GExit | ret | cont
+deriving DecidableEq, Repr
+
+/-- `for … { pre…; if err := comp.Start/Shutdown(…); err != nil { onErr…; return|continue }; post… }` -/
+structure LoopSkel where
+  pre : List GAct
+  onErr : List GAct
+  exit : GExit
+  post : List GAct
+  /-- (start loops) the component is handed `&HostWrapper{…, InstanceID: instanceID}` — a `componentstatus.Reporter` — rather than the bare host -/
+  hostWrapped : Bool
+deriving DecidableEq, Repr
+
+inductive GLayer | extensions | pipelines
+deriving DecidableEq, Repr
+
 end OtelVerif.C11
